@@ -236,8 +236,9 @@ static void RN(sc_init_rects_scattered) (T *t)
 {
     /* > 64 (thorough: > 128) boxes none of which fits an existing sub-region: region_info array
      * leaves the stack (malloc) and is doubled again (realloc); then ~n unions */
-    RT d; int ok, hf; int n = t->thorough ? 300 : 140; BT *b = malloc (sizeof (BT) * (size_t) n);
-    for (int i = 0; i < n; i++) { b[i].x1 = 2 * i; b[i].x2 = 2 * i + 1; b[i].y1 = i; b[i].y2 = i + 1000; }
+    RT d; int ok, hf; int n = t->thorough ? 260 : 140; BT *b = malloc (sizeof (BT) * (size_t) n);
+    /* identical x ranges keep the union small (one rectangle per band) although all boxes overlap in y */
+    for (int i = 0; i < n; i++) { b[i].x1 = 0; b[i].x2 = 1 + i % 3; b[i].y1 = i; b[i].y2 = i + 1000; }
     RWIN (RF(init_rects) (&d, b, n)); RN(result) (t, "init_rects(scattered, staggered)", ok, hf, &d);
     RF(fini) (&d); free (b);
 }
